@@ -22,6 +22,10 @@ import (
 )
 
 func (dec *Decoder) readObjectAsMap(structInfo structInfo) map[string]interface{} {
+	if !dec.enter() {
+		return nil
+	}
+	defer dec.leave()
 	m := make(map[string]interface{}, dec.prealloc(len(structInfo.names)))
 	t := reflect2.TypeOf(m).(*reflect2.UnsafeMapType)
 	if !dec.IsSimple() {
@@ -41,6 +45,10 @@ func (dec *Decoder) readObjectAsMap(structInfo structInfo) map[string]interface{
 }
 
 func (dec *Decoder) readObject(structInfo structInfo) interface{} {
+	if !dec.enter() {
+		return nil
+	}
+	defer dec.leave()
 	obj := structInfo.t.New()
 	dec.AddReference(obj)
 	ptr := reflect2.PtrOf(obj)
@@ -118,6 +126,10 @@ func (valdec *structDecoder) decodeMapAsObject(dec *Decoder, p interface{}) {
 }
 
 func (valdec *structDecoder) Decode(dec *Decoder, p interface{}, tag byte) {
+	if !dec.enter() {
+		return
+	}
+	defer dec.leave()
 	switch tag {
 	case TagObject:
 		valdec.decodeObject(dec, p)
